@@ -18,7 +18,8 @@ MANIFEST = dict(
          "unsafe constructor (callbacks overlapped downstream of Merge or a unicast subject; repaired in /repo, fix commit ee00f46); the overlap search (Merge of goroutine-driven sources and every subject kind with "
          "several producers |> chains into a raw observer with an inside counter) validates the verdict of the model on the real code. (a) concurrent kernel (safe / eventually-safe subscriber, any number of producer goroutines, any schedule) and "
          "(c) subjects: see the kernel and C10 parts when present in this build."
-         " Constructor table regenerated from the source (RoGen/Ctors, C02b.ctor_modes, mode_impl: which concurrency mode every public constructor ends up with). kind=overlap3: the library's own sources (Future, Start, Timer, Interval, RangeWithInterval, FromChannel) and the context operators with the subscription context cancelled while a callback runs - no reaction may overlap the callback in progress.",
+         " Constructor table regenerated from the source (RoGen/Ctors, C02b.ctor_modes, mode_impl: which concurrency mode every public constructor ends up with). kind=overlap3: the library's own sources (Future, Start, Timer, Interval, RangeWithInterval, FromChannel) and the context operators with the subscription context cancelled while a callback runs - no reaction may overlap the callback in progress."
+         " Parameter corners in the overlap chains (EndWith(), StartWith(), Skip(0), a huge Take): no short cut may hand the operator's own non-locking subscriber upstream.",
     technique="Lean 4 proof (induction over chains; lock invariant over schedules for the kernel part) + kernel-decided Catalogue table regenerated from source + overlap stress search",
     ref='5/C02')
 
